@@ -6,8 +6,10 @@ pub fn run(ctx: &Ctx) -> Report {
     let id = "belt_block::belt_wblock";
     let mut rng = ctx.rng("wblock");
     let reps = ctx.budget(2, 60, 1);
-    let mut lens: Vec<usize> = (32..=600).collect();
-    let extra = ctx.budget(6, 300, 1);
+    // interpreter slices: a window of short lengths that moves with the seed
+    let short = ctx.flags.iter().any(|a| a == "--short");
+    let mut lens: Vec<usize> = if short { (0..24).map(|i| 32 + ((ctx.seed as usize * 7 + i * 5) % 120)).collect() } else { (32..=600).collect() };
+    let extra = if short { 0 } else { ctx.budget(6, 300, 1) };
     for _ in 0..extra {
         lens.push(601 + rng.below(65536 - 601));
     }
